@@ -13,6 +13,7 @@ import VrlProofs.Lemmas.KindInsert
 import VrlProofs.Lemmas.KindGetNeg
 import VrlProofs.Lemmas.KindRemove
 import VrlProofs.Lemmas.KindSupConv
+import VrlProofs.Lemmas.KindMerge
 
 namespace C19
 open Spec
@@ -223,5 +224,73 @@ theorem memsup_partial (v : Value) (K : Kind) (hs : v.Sorted = true)
   unfold memsupLawM memsupLaw
   have := mem_iff_superset_partial v K hs hi hw he
   cases h1 : mem v K <;> cases h2 : K.isSuperset v.kindOf <;> simp_all
+
+/-- **`merge(Strategy::Overwrite)` describes the run-time `a | b`** for every pair of objects
+    `a ∈ₖ A`, `b ∈ₖ B` with `mergeClass A B = none`: no known field of `B` may be absent
+    (`D_merge_overwrite_maybe_absent`), not both object unknowns are `Exact` with defined states
+    (`D_merge_unknown_overwrite`), every `Infinite` unknown is `any` (`D_inf_over_exact`); all three
+    classes are witnessed. Kinds key-sorted (`BTreeMap`). -/
+theorem merge_sound_partial (a b : Value) (A B : Kind) (sa : a.Sorted = true) (sb : b.Sorted = true)
+    (sA : A.SortedK = true) (sB : B.SortedK = true) (hc : mergeClass A B = .none) :
+    mergeLawM a A b B = true := by
+  unfold mergeLawM
+  split
+  · rename_i ma mb
+    unfold mergeLaw
+    cases hA : mem (.obj ma) A with
+    | false => rfl
+    | true =>
+    cases hB : mem (.obj mb) B with
+    | false => rfl
+    | true =>
+    simp only [Bool.and_self, Bool.not_true, Bool.false_or]
+    simp only [Value.Sorted] at sa sb
+    have hsa := VMap.sortedKeys_of_sorted ma sa
+    have hsb := VMap.sortedKeys_of_sorted mb sb
+    obtain ⟨c1, hc1, ha1, ha2⟩ := (Spec.mem_obj_iff ma A hsa).mp hA
+    obtain ⟨c2, hc2, hb1, hb2⟩ := (Spec.mem_obj_iff mb B hsb).mp hB
+    -- the class hypotheses
+    unfold mergeClass at hc
+    split at hc
+    · cases hc
+    · rename_i h1
+      split at hc
+      · cases hc
+      · rename_i h2
+        split at hc
+        · cases hc
+        · rename_i h3
+          have hopt : c2.known.any (fun _ v => v.prim.undefined) = false := by
+            simpa [overwriteMaybeAbsent, hc2] using h1
+          have hunk : (c1.unknown.isExact && c1.unknownKind.containsAnyDefined &&
+              c2.unknown.isExact && c2.unknownKind.containsAnyDefined) = false := by
+            simpa [unknownOverwrite, hc1, hc2] using h2
+          have hi : A.hasNonAnyInf = false ∧ B.hasNonAnyInf = false := by simpa using h3
+          cases A with
+          | mk pA aA oA =>
+          cases B with
+          | mk pB aB oB =>
+          cases oA with
+          | none => simp [Kind.object] at hc1
+          | some c1' =>
+          cases oB with
+          | none => simp [Kind.object] at hc2
+          | some c2' =>
+          simp only [Kind.object, Option.some.injEq] at hc1 hc2
+          subst hc1; subst hc2
+          obtain ⟨_, so1⟩ := Spec.kind_sortedK sA
+          obtain ⟨_, so2⟩ := Spec.kind_sortedK sB
+          obtain ⟨_, io1⟩ := Spec.kind_infAny hi.1
+          obtain ⟨_, io2⟩ := Spec.kind_infAny hi.2
+          have hfuel : ∃ n, Kind.fuel (Kind.mk pA aA (.some c1')) (Kind.mk pB aB (.some c2')) = n + 1 :=
+            ⟨_, rfl⟩
+          obtain ⟨n, hn⟩ := hfuel
+          simp only [Kind.merge, Kind.mergeKeep, Kind.Strategy.isShallow, hn, Kind.mergeKeepF,
+            OCol.mergeWith]
+          obtain ⟨hs1, hs2⟩ := Spec.col_merge_overwrite_sound n c1' c2' ma mb hsb so1 so2 io1 io2 hopt hunk
+            ha1 ha2 hb1 hb2
+          rw [Spec.mem_obj_iff _ _ (VMap.mergeInto_sortedKeys mb ma hsa)]
+          exact ⟨_, rfl, hs1, hs2⟩
+  · rfl
 
 end C19
